@@ -32,6 +32,7 @@ class BuildLock:
 FLAVOUR_SPECS = {
     "plain_mk256off": ("plain", (), ("VEC256_CFLAGS=",)),          # the 256-bit back end compiled out the way options.mak documents
     "plain_nosimd": ("plain", ("SKINNY_VERIF", "SKINNY_VERIF_VEC128_MATH=0", "SKINNY_VERIF_VEC256_MATH=0"), ()),
+    "plain_w32": ("plain", ("SKINNY_VERIF", "SKINNY_VERIF_64BIT=0"), ()),                     # 32-bit words, SIMD back ends as shipped
     "cthook_w32": ("cthook", ("SKINNY_VERIF", "SKINNY_VERIF_64BIT=0"), ()),
     "cthook_w32_u0_nosimd": ("cthook", ("SKINNY_VERIF", "SKINNY_VERIF_64BIT=0", "SKINNY_VERIF_UNALIGNED=0", "SKINNY_VERIF_VEC128_MATH=0", "SKINNY_VERIF_VEC256_MATH=0"), ()),
     "cthook_neutral": ("cthook", ("SKINNY_VERIF", "SKINNY_VERIF_LITTLE_ENDIAN=0", "SKINNY_VERIF_VEC128_MATH=0", "SKINNY_VERIF_VEC256_MATH=0"), ()),
@@ -89,7 +90,7 @@ OBJSIM = {
     "C09": dict(runs=(100000, 3000000), flavours=[("plain", 0.7, 0), ("asan", 0.5, 1)], level="exploration"),
     "C10": dict(runs=(100000, 2500000), flavours=[("plain", 1.0, 0), ("o0", 1.0, 0), ("asan", 0.3, 0)], level="exploration"),
     "C11": dict(runs=(40000, 1200000), flavours=[("plain", 1.0, 0), ("o0", 1.0, 0), ("asan", 1.0, 0)], level="exploration", digests=True),
-    "C13": dict(runs=(0, 0), flavours=[("plain", 1.0, 0), ("o0", 1.0, 0), ("plain_mk256off", 1.0, 0), ("plain_nosimd", 1.0, 0)], level="fault_enumeration"),
+    "C13": dict(runs=(0, 0), flavours=[("plain", 1.0, 0), ("o0", 1.0, 0), ("plain_mk256off", 1.0, 0), ("plain_nosimd", 1.0, 0), ("plain_w32", 1.0, 0)], level="fault_enumeration"),
     "C14": dict(runs=(100000, 3000000), flavours=[("plain", 1.0, 0), ("asan", 0.25, 1)], level="exploration"),
     "C15": dict(runs=(150000, 4000000), flavours=[("plain", 1.0, 0), ("asan", 0.25, 1)], level="exploration"),
     "C16": dict(runs=(40000, 600000), flavours=[("plain", 1.0, 0), ("asan", 0.25, 0), ("o0", 0.5, 0)], level="fault_enumeration"),
